@@ -243,6 +243,19 @@ def stepLine (d : DrvSt) (line : String) : DrvSt × List String :=
     | none => (d, [])
     | some s =>
       if s.aborted then (d, []) else
+      match words line with
+      | ["blockon", n] =>
+        -- `EventLoop::block_on` of a future that is ready at its n-th poll and wakes itself at every earlier one:
+        -- n-1 turns, each a dispatch (events, then idles); the harness prints one snapshot, after the last turn
+        let turns := max 1 ((n.toNat?.getD 2) - 1)
+        let s' := (List.range turns).foldl (fun s _ => step s .dispatch) s
+        let newObs := s'.log.drop d.printed
+        let isSnap (o : Obs) : Bool := match o with | .st _ | .ep _ => true | _ => false
+        let snaps := newObs.filter isSnap
+        let body := newObs.filter (fun o => !isSnap o)
+        let tail := if s'.aborted then [] else (snaps.reverse.take 2).reverse
+        ({ st := some s', printed := s'.log.length }, (body ++ tail).map obsText)
+      | _ =>
       match parseOp line with
       | none => (d, ["bad-op " ++ line])
       | some o =>
